@@ -297,7 +297,7 @@ CLAIM = {
             "normal paths after its action; the non-replayable command table is consistent with the registry and the statement; "
             "_rewind / resume / the suspender helper plan build and push the replay plan in order. Which messages a concrete plan "
             "replays is not decided.",
-    "technique": "ownership tables; guard dominance and must-pass-through on handler CFGs; table agreement; yield-sequence check",
+    "technique": "ownership tables; guard dominance and must-pass-through on handler CFGs; provenance of the replay plan through reaching definitions; table agreement; yield-sequence check",
 }
 
 RE = "run_engine.py"
